@@ -564,4 +564,60 @@ Proof.
     unfold G. hred. eapply good_hset_clo; [apply good_refl | exact Eca].
 Qed.
 
+(* CallFunction (11) on a script function or closure: frames only *)
+Definition callee_not_native (s : state) : Prop :=
+  forall a h, snd (spop s) = VObj a -> hget (st_heap s) a <> Some (ONative h).
+
+Lemma g_11_script ip0 s : opcode_at P ip0 = 11%N -> callee_not_native s -> G s (STEP ip0 s).
+Proof.
+  intros Hop Hn. step_opc Hop. unfold i_11. unfold callee_not_native in Hn. rewrite spop_shape in *.
+  cbv beta iota. cbn [snd] in Hn. hred.
+  destruct (snd (vs_pop VNil (st_stack s))) as [|z|r|a]; try (apply G_same; reflexivity).
+  destruct (hget (st_heap s) a) as [[t|b|h ar|h|h ar ups|u]|] eqn:E; try (apply G_same; reflexivity).
+  - cbv zeta. hred. destruct (st_calls s) as [|top rest]; [apply G_same; reflexivity|].
+    repeat dm; apply G_same; hred; try reflexivity; assumption.
+  - exfalso. eapply Hn; eauto.
+  - cbv zeta. hred. destruct (st_calls s) as [|top rest]; [apply G_same; reflexivity|].
+    repeat dm; apply G_same; hred; try reflexivity; assumption.
+Qed.
+
+Lemma opcode_cases (k : N) : (k <= 46)%N ->
+  In k [0; 1; 2; 3; 4; 5; 6; 7; 8; 9; 10; 11; 12; 13; 14; 15; 16; 17; 18; 19; 20; 21; 22; 23; 24; 25; 26; 27; 28;
+        29; 30; 31; 32; 33; 34; 35; 36; 37; 38; 39; 40; 41; 42; 43; 44; 45; 46]%N.
+Proof.
+  intros H. destruct k as [|p]; [left; reflexivity|].
+  do 6 (try destruct p as [p|p|]); try lia; cbn [In]; tauto.
+Qed.
+
+(* the key-domain side condition: the key of a SetProperty lies in the key domain *)
+Definition set_key_ok (ip0 : N) (s : state) : Prop :=
+  opcode_at P ip0 = 33%N -> dom (st_heap s) (speek s 0).
+
+(* every instruction except a call of a native function keeps the invariant of every table of the heap
+   (and live cells stay live and keep their kind) *)
+Theorem step_tables_wf_no_native : forall ip0 s,
+  set_key_ok ip0 s ->
+  opcode_at P ip0 <> 4%N -> (opcode_at P ip0 = 11%N -> callee_not_native s) ->
+  G s (STEP ip0 s).
+Proof.
+  intros ip0 s Hkey H4 H11.
+  destruct (N.le_gt_cases (opcode_at P ip0) 46) as [Hle|Hgt];
+    [| rewrite (invalid_opcode_is_ub F bld P reenter ip0 s Hgt); apply G_same; reflexivity].
+  apply opcode_cases in Hle. cbn [In] in Hle.
+  repeat (destruct Hle as [Hop|Hle]; [symmetry in Hop|]); try contradiction; try congruence.
+  all: first
+    [ apply G_same; first
+        [ eapply hs_binop; [|exact Hop]; cbn [In]; tauto
+        | apply hs_5; assumption | apply hs_6; assumption | apply hs_7; assumption | apply hs_9; assumption
+        | apply hs_10; assumption | apply hs_16; assumption | apply hs_17; assumption | apply hs_18; assumption
+        | apply hs_19; assumption | apply hs_20; assumption | apply hs_21; assumption | apply hs_23; assumption
+        | apply hs_27; assumption | apply hs_28; assumption | apply hs_29; assumption | apply hs_30; assumption
+        | apply hs_32; assumption | apply hs_34; assumption | apply hs_35; assumption | apply hs_36; assumption
+        | apply hs_44; assumption ]
+    | apply g_8; assumption | solve [apply g_11_script; auto] | apply g_22; assumption | apply g_31; assumption
+    | solve [apply g_33; auto] | eapply g_37_42; [|exact Hop]; cbn [In]; tauto | apply g_38; assumption
+    | apply g_39; assumption | apply g_40; assumption | apply g_41; assumption | apply g_43; assumption
+    | apply g_45; assumption | apply g_46; assumption ].
+Qed.
+
 End Preserve.
